@@ -118,6 +118,77 @@ fn gen_points(r: &mut Rng, dim: usize, big: bool) -> (&'static str, Vec<[f64; 3]
     (name, pts)
 }
 
+/// Product lattices whose cell midlines are hit exactly: coordinates `i * h` (h = 0.1 or
+/// 0.25), every axis spans zero with bounds of magnitude 8..64, the span of an axis is
+/// `2^L` equal steps and the points sit on the step boundaries (the midlines of levels
+/// < L).  Full grids are symmetric about their centre (axis-aligned bounding box; exact
+/// for h = 0.25); the subset variant keeps the corners.
+fn gen_midline(r: &mut Rng, dim: usize) -> (&'static str, Vec<[f64; 3]>) {
+    let shapes2: [[usize; 3]; 6] = [[9, 5, 1], [9, 3, 1], [5, 5, 1], [5, 3, 1], [3, 3, 1], [17, 3, 1]];
+    let shapes3: [[usize; 3]; 4] = [[5, 3, 3], [3, 3, 3], [9, 3, 2], [5, 5, 2]];
+    let mut shape = if dim == 2 { *r.pick(&shapes2) } else { *r.pick(&shapes3) };
+    if r.chance(1, 3) {
+        shape.swap(0, 1); // the longest axis is not always the first
+    }
+    let h = *r.pick(&[0.1f64, 0.1, 0.25]);
+    // mostly bounds of magnitude 16..32: there an ulp exceeds the 10*EPSILON tolerance of
+    // `contains` while the tolerance itself is still effective (it is void from 32 on)
+    let window = r.chance(2, 3);
+    let mut axes: Vec<Vec<f64>> = Vec::new();
+    let mut last_span = 0i64;
+    for d in 0..3 {
+        if d >= dim {
+            axes.push(vec![0.0]);
+            continue;
+        }
+        let cnt = shape[d];
+        let steps = (cnt - 1).max(1) as i64;
+        loop {
+            let (lo, hi) = if window {
+                (r.range(160, 319) as f64 / 10.0, r.range(80, 319) as f64 / 10.0)
+            } else {
+                (r.range(8, 64) as f64, r.range(8, 64) as f64)
+            };
+            let a = -(lo / h).round() as i64;
+            let mut b = (hi / h).round() as i64;
+            b += (steps - (b - a) % steps) % steps;
+            // longer axes get longer spans (a unique principal axis)
+            let span = b - a;
+            if d > 0 && (span - last_span).abs() * 10 < last_span {
+                continue;
+            }
+            last_span = span;
+            let m = span / steps;
+            axes.push((0..cnt as i64).map(|j| (a + j * m) as f64 * h).collect());
+            break;
+        }
+    }
+    let mut pts = Vec::new();
+    for z in &axes[2] {
+        for y in &axes[1] {
+            for x in &axes[0] {
+                pts.push([*x, *y, *z]);
+            }
+        }
+    }
+    let name = if r.chance(1, 4) {
+        // subset keeping the corners (first and last point of the grid at least)
+        let n = pts.len();
+        let keep: Vec<bool> = (0..n).map(|i| i == 0 || i == n - 1 || r.chance(2, 3)).collect();
+        let mut k = 0;
+        pts.retain(|_| {
+            k += 1;
+            keep[k - 1]
+        });
+        if h == 0.1 { "midline_subset_0.1" } else { "midline_subset_0.25" }
+    } else if h == 0.1 {
+        "midline_grid_0.1"
+    } else {
+        "midline_grid_0.25"
+    };
+    (name, pts)
+}
+
 fn gen_weights(r: &mut Rng, n: usize) -> (&'static str, Vec<f64>) {
     match r.below(8) {
         0 => ("ones", vec![1.0; n]),
@@ -349,12 +420,21 @@ fn case_hilbert(r: &mut Rng, big: bool) -> Out {
 
 fn case_zcurve(r: &mut Rng, big: bool) -> Out {
     let dim = if r.chance(1, 2) { 2 } else { 3 };
-    let (pfam, pts) = gen_points(r, dim, big);
+    let midline = r.chance(1, 3);
+    let (pfam, pts) = if midline { gen_midline(r, dim) } else { gen_points(r, dim, big) };
     let n = pts.len();
     // part_count 1..n+2; 0 (division by zero, outside the contract) once in a while
-    let part_count = if r.chance(1, 50) { 0 } else { r.range(1, n as i64 + 2) as usize };
+    let mut part_count = if r.chance(1, 50) { 0 } else { r.range(1, n as i64 + 2) as usize };
     let max_order = if dim == 2 { 64 } else { 42 };
-    let order = pick_order(r, max_order);
+    let mut order = pick_order(r, max_order);
+    if midline {
+        // part boundaries inside cells, a few levels of refinement
+        part_count = r.range(2, (n as i64 / 2).max(2)) as usize;
+        order = r.range(2, 9) as u32;
+    } else if n > 16 && order > 16 && order <= max_order {
+        // (evaluation cost of the box arithmetic in Coq ~ n * order)
+        order = 2 + r.below(14) as u32;
+    }
     let threads = *r.pick(&POOLS);
     let p0: Vec<usize> = vec![usize::MAX; n];
 
@@ -375,25 +455,32 @@ fn case_zcurve(r: &mut Rng, big: bool) -> Out {
     let recs = coupe::verif::drain();
     let perm = take(&recs, "zcurve_perm");
     let codes = take(&recs, "zcurve_codes");
+    let aabb = take(&recs, "zcurve_aabb");
+    let rot = take(&recs, "zcurve_rotated");
+    let rot_per: Vec<String> = rot.chunks(dim).map(|c| format!("[{}]", c.iter().map(|x| x.to_string()).collect::<Vec<_>>().join(";"))).collect();
     let per: Vec<String> = if order == 0 {
         (0..perm.len()).map(|_| "[]".to_string()).collect()
     } else {
         codes.chunks(order as usize).map(|c| format!("[{}]", c.iter().map(|x| x.to_string()).collect::<Vec<_>>().join(";"))).collect()
     };
     let coq = format!(
-        "CZ {} {} {} {} ([{}] : list (list N)) {} {} {}",
+        "CZ {} {} {} {} ([{}] : list (list N)) {} {} ([{}] : list (list N)) {} {}",
         dim,
         order,
         part_count,
         n,
         per.join(";"),
         coq_nlist(perm.iter().map(|x| *x as u128)),
+        coq_nlist(aabb.iter().map(|x| *x as u128)),
+        rot_per.join(";"),
         coq_nlist(p0.iter().map(|x| *x as u128)),
         coq_impl(&res)
     );
     let json = format!(
-        "{{\"stream\":\"zcurve\",\"dim\":{},\"points\":{},\"part_count\":{},\"order\":{},\"threads\":{},\"zcurve_perm\":{},\"zcurve_codes_flat\":{},\"impl\":{}}}",
-        dim, json_points(&pts, dim), part_count, order, threads, json_u64s(&perm), json_u64s(&codes), json_impl(&res)
+        "{{\"stream\":\"zcurve\",\"dim\":{},\"points\":{},\"part_count\":{},\"order\":{},\"threads\":{},\"zcurve_perm\":{},\"zcurve_codes_flat\":{},\"zcurve_aabb\":{},\"zcurve_rotated\":{},\"impl\":{}}}",
+        dim, json_points(&pts, dim), part_count, order, threads, json_u64s(&perm), json_u64s(&codes),
+        json_f64s(&aabb.iter().map(|b| f64::from_bits(*b)).collect::<Vec<_>>()),
+        json_f64s(&rot.iter().map(|b| f64::from_bits(*b)).collect::<Vec<_>>()), json_impl(&res)
     );
     Out {
         coq,
